@@ -7,7 +7,7 @@ use vh::{json, Cli, Report, Rng, Value};
 fn main() {
     let cli = Cli::parse();
     let mut rep = Report::new("C01", &cli);
-    rep.note("rule", json!("case = (tracker kind in {Sort, BatchSort, VisualSort, BatchVisualSort}, IoU(t)/Mahalanobis, shards 1..4, voting shards 1..4, history 1..10, max_idle 0..3, VisualSORT option grid) x history of 30..120 predict calls / batches over 1..3 scenes from the presets random / crossing / convoy / crowd / lookalikes / teleport / stop-and-go with duplicated detections, empty calls, appearing / disappearing objects, rotated boxes, with/without features. Monitor: lifecycle reference model advanced from the API boundary only: per call one record per detection in order, echoed observed box / custom id / scene (bit-exact; angle None == Some(0)), scene epoch, track length, no id twice within a call, a fresh id has never been issued and has length 1, no id of a handed-out track; batch results: one per submitted scene; the stored track (read through get_main_store().get_store()) agrees with the record. Non-trivial call: >= 2 detections with at least one continuation and one new track; distinct by hash of the call."));
+    rep.note("rule", json!("case = (tracker kind in {Sort, BatchSort, VisualSort, BatchVisualSort}, IoU(t)/Mahalanobis, shards 1..4, voting shards 1..4, history 1..10, max_idle 0..3, VisualSORT option grid) x history of 30..120 predict calls / batches over 1..3 scenes from the presets random / crossing / convoy / crowd / lookalikes / teleport / stop-and-go with duplicated detections, empty calls, appearing / disappearing objects, rotated boxes, with/without features. Monitor: lifecycle reference model advanced from the API boundary only: per call one record per detection in order, echoed observed box / custom id / scene (bit-exact; angle None == Some(0)), scene epoch, track length, no id twice within a call, a fresh id has never been issued and has length 1, no id of a handed-out track; batch results: one per submitted scene; 35% of the batch histories are run pipelined (consumer thread started before predict, next batch submitted while the previous one is drained); one stress case per process (8 voting threads, 48 scenes per batch, every detection a new track) hammers id allocation; the stored track (read through get_main_store().get_store()) agrees with the record. Non-trivial call: >= 2 detections with at least one continuation and one new track; distinct by hash of the call."));
     rep.note("assumptions", json!(["batch trackers: a scene appears at most once per batch (the request type is keyed by scene)", "Some(0.0) and None angles denote the same box"]));
     let n = cli.cases(160, 2400);
     for idx in cli.index_range(n) {
@@ -35,6 +35,45 @@ fn main() {
         let mut life = Life::new(cfg.max_idle);
         rep.eval();
         rep.count(&format!("histories/{:?}", kind));
+        // batch kinds, 35%: pipelined use - every batch is handed to a consumer thread started before predict and the
+        // next batch is submitted while the previous one is still being drained; the contract is then checked on the
+        // results taken in submission order
+        if kind.is_batch() && rng.chance(0.35) {
+            rep.count("histories/pipelined-consumer-thread");
+            let batches: Vec<&Vec<(u64, Vec<Det>)>> = ops.iter().filter_map(|o| if let Op::Batch(b) = o { Some(b) } else { None }).collect();
+            let pending: Vec<_> = batches.iter().map(|b| trk.submit_with_consumer(b)).collect();
+            for (bi, (b, rx)) in batches.iter().zip(pending).enumerate() {
+                let out = match rx.recv() {
+                    Ok(o) => o,
+                    Err(_) => {
+                        rep.violation(&format!("C01/{:?}/pipelined/result-never-delivered", kind), idx, json!({"cfg": cfg.js(), "batch": bi}));
+                        break;
+                    }
+                };
+                let mut want: Vec<u64> = b.iter().map(|x| x.0).collect();
+                let mut got: Vec<u64> = out.iter().map(|x| x.0).collect();
+                want.sort();
+                got.sort();
+                if want != got {
+                    rep.violation(&format!("C01/{:?}/batch-results-per-scene", kind), idx, json!({"cfg": cfg.js(), "batch": bi, "submitted": want, "received": got}));
+                    break;
+                }
+                let mut bad = false;
+                for (scene, recs) in &out {
+                    let dets = &b.iter().find(|c| c.0 == *scene).unwrap().1;
+                    for (sig, d) in life.on_predict(*scene, dets, recs, true) {
+                        rep.violation(&format!("C01/{:?}/pipelined/{}", kind, sig), idx, json!({"cfg": cfg.js(), "batch": bi, "scene": scene, "detail": d, "records": recs.iter().map(|x| x.js()).collect::<Vec<_>>()}));
+                        bad = true;
+                    }
+                    rep.add("records", recs.len() as u64);
+                    rep.add("calls", 1);
+                }
+                if bad {
+                    break;
+                }
+            }
+            continue;
+        }
         let ctx = |call: usize, extra: Value| json!({"cfg": cfg.js(), "preset": w.preset, "call": call, "extra": extra});
         'hist: for (ci, op) in ops.iter().enumerate() {
             let calls: Vec<(u64, Vec<Det>)> = match op {
@@ -108,6 +147,52 @@ fn main() {
                             }
                             rep.count("stored_tracks_cross_checked");
                         }
+                    }
+                }
+            }
+        }
+    }
+    // ---- stress case (one per process): many voting threads, many scenes per batch, every detection starts a new
+    // track in every batch, so that id allocation of different voting threads collides as often as possible
+    if !cli.small && cli.replay_index.is_none() {
+        for kind in [Kind::BatchSort, Kind::BatchVisual] {
+            let mut rng = Rng::for_case(cli.seed, cli.shard, 1 << 40);
+            let mut cfg = gen_cfg(&mut rng, kind);
+            cfg.max_idle = 0;
+            cfg.shards = 2;
+            cfg.voting_shards = 8;
+            cfg.constraints = None;
+            cfg.vis.own_use = 0.0;
+            cfg.vis.own_collect = 0.0;
+            cfg.pos = PosMetric::IoU(0.3);
+            let scenes = 48u64;
+            let mut trk = AnyTracker::new(&cfg);
+            let mut life = Life::new(0);
+            let nb = if cli.thorough() { 400 } else { 90 };
+            rep.count("stress_cases");
+            'stress: for b in 0..nb {
+                let batch: Vec<(u64, Vec<Det>)> = (0..scenes)
+                    .map(|s| {
+                        // boxes jump far every batch: nothing is ever continued
+                        let dets = (0..2)
+                            .map(|k| Det { b: DBox { xc: 100.0 + 500.0 * k as f32 + 97.0 * (b % 7) as f32, yc: 100.0 + 311.0 * ((b + k) % 5) as f32, angle: None, aspect: 0.5, h: 40.0, conf: 1.0 }, custom: Some((b * 1000 + k) as i64), feature: Some(vec![k as f32, 1.0]), quality: Some(1.0), truth: 0 })
+                            .collect();
+                        (s, dets)
+                    })
+                    .collect();
+                let out = trk.predict_batch(&batch);
+                for (scene, recs) in &out {
+                    let dets = &batch.iter().find(|c| c.0 == *scene).unwrap().1;
+                    for (sig, d) in life.on_predict(*scene, dets, recs, true) {
+                        rep.violation(&format!("C01/{:?}/stress/{}", kind, sig), 1 << 40, json!({"batch": b, "scene": scene, "detail": d}));
+                        break 'stress;
+                    }
+                    rep.add("stress_records", recs.len() as u64);
+                }
+                // tracks of the previous batch are expired now: hand them out so the stores stay small
+                for w in trk.wasted() {
+                    if let Some(m) = life.tracks.get_mut(&w.id) {
+                        m.place = Place::HandedOut;
                     }
                 }
             }
